@@ -10,6 +10,7 @@
 import Golib.Gen.C14
 import Golib.HLL.SrcBridge
 import Golib.HLL.SrcProg
+import Golib.HLL.SrcHash
 
 namespace C14Gen
 open HLL
@@ -193,5 +194,21 @@ theorem gen_byte_form_roundtrip (ρ : Env) (colls : String → List Nat) (σ : S
   injection hrun with hrun
   rw [← hrun, gen_build_meaning]
   exact run_build_getBytes p ws rest hp.hi hs (wf_words_lt p ws hw)
+
+/-- the hash: the symbolically executed bodies of `MurmurHashLong` and `MurmurHash` -/
+theorem gen_murmur : Gen.C14.murmurLong = Src.murmurLong ∧ Gen.C14.murmur32 = Src.murmur32 := by
+  refine ⟨by rfl, by rfl⟩
+
+open HLL.Src in
+/-- **interpreted**: the transcribed `MurmurHashLong` computes the model's `murmurLong` for every
+    64-bit item, `MurmurHash` the hash of the zero-extended 32-bit item; both are 32-bit values, so
+    every theorem stated for an arbitrary hash applies to the hash the code uses -/
+theorem gen_murmur_meaning (ρ : Env) (data : Nat) (h0 : ρ.args.getD 0 0 = data) :
+    Gen.C14.murmurLong.eval ρ = murmurLong data ∧ Hashed (murmurLong data) ∧
+    (data < 4294967296 → (∀ x, ρ.fn1 "MurmurHashLong" x = murmurLong x) →
+      Gen.C14.murmur32.eval ρ = murmur32 data) := by
+  refine ⟨?_, murmurLong_lt data, ?_⟩
+  · rw [gen_murmur.1]; exact murmurLong_bridge ρ data h0
+  · intro hd hf; rw [gen_murmur.2]; exact murmur32_bridge ρ data h0 hd hf
 
 end C14Gen
